@@ -547,6 +547,8 @@ class MarkdownNormalizer(Renderer):
         # A multi-line (setext) heading becomes a one-line ATX heading: a soft line break
         # inside it would end the heading and start a paragraph.
         children_content = re.sub(r"(?<!\\)\n", " ", children_content)
+        # Runs of spaces collapse to one, as they do in wrapped paragraphs.
+        children_content = re.sub(r"[ \t]{2,}", " ", children_content).strip()
         # A final run of `#` (after a space, or alone) would be read as the optional closing
         # sequence of the ATX heading and dropped.
         closing_like = re.search(r"(?:^|(?<=[ \t]))#+$", children_content)
